@@ -168,6 +168,26 @@ FUNCS = {
     "sqrt5": lambda x: np.sqrt(x + 5.0),
     "gauss-method": _M.gauss,
 }
+
+
+def _f1_pointwise(x):
+    x = np.asarray(x, dtype="f8")
+    return np.array([math.cos(3.0 * float(t)) + float(t) for t in x.ravel()]).reshape(x.shape)
+
+
+def _f1_prealloc(x):
+    x = np.asarray(x, dtype="f8")
+    out = np.empty(x.shape)
+    out[...] = np.cos(3.0 * x) + x
+    return out
+
+
+def _f1_list(x):
+    return [math.cos(3.0 * float(t)) + float(t) for t in np.asarray(x, dtype="f8").ravel()] if np.ndim(x) else math.cos(3.0 * float(x)) + float(x)
+
+
+# the same integrand in the styles user code comes in (point by point, preallocated output, a plain list returned)
+FUNCS.update({"style:pointwise": _f1_pointwise, "style:prealloc": _f1_prealloc, "style:list": _f1_list})
 F_INTERVALS = [(0.0, 1.0), (-1.0, 1.0), (-3.0, -1.0), (2.0, 1.0), (0.0, 1e-9),
                (5.0, 5.0 + 1e-9), (-1e6, 1e6)]
 F_SKIP = {("exp", (-1e6, 1e6)), ("cos3", (-1e6, 1e6)), ("sqrt5", (-1e6, 1e6))}
